@@ -38,6 +38,17 @@ def blocks_of(kind, atoms, mtxs):
         return [[("trylock", m), ("tunlock", m)] for m in mtxs]
     if kind == "yield":
         return [[("yield", "none")]]
+    # stop_exploring regions hold stores only: a load inside a region returns loom's default candidate (no alternative is
+    # explored for it), which need not be the value of the interleaving semantics this reference uses
+    if kind == "rg":         # a region around two stores
+        acc = [("st", o) for o in atoms]
+        return [[("stopx", "none"), a, b, ("explore", "none")] for a in acc for b in acc]
+    if kind == "rg1":
+        return [[("stopx", "none"), ("st", o), ("explore", "none")] for o in atoms]
+    if kind == "rgcs":       # ... around a critical section (the region's thread may block inside it)
+        return [[("stopx", "none"), ("lock", m), ("st", o), ("unlock", m), ("explore", "none")] for o in atoms for m in mtxs]
+    if kind == "skip":
+        return [[("skipb", "none")]]
     if kind == "send":
         return [[("send", "ch")]]
     if kind == "recv":
@@ -87,6 +98,17 @@ def space(n, kinds, atoms, mtxs, k, main_k):
     return out
 
 
+def ctl_after_nonbranching(p):
+    """a control call right after an operation that is no scheduling point in loom (unlock, unpark): the decision 'who runs after
+    the last real scheduling point' is then taken inside the region although the program text puts it before - such programs
+    are left out of the region spaces (the reference semantics lets other threads run before the unlock)"""
+    for th in p:
+        for (a, b) in zip(th, th[1:]):
+            if a[0] in ("unlock", "tunlock", "unpark") and b[0] in ("stopx", "skipb"):
+                return True
+    return False
+
+
 def to_tla(progs):
     def ins(i):
         return f'[op |-> "{i[0]}", o |-> {i[1]}]' if isinstance(i[1], int) else f'[op |-> "{i[0]}", o |-> "{i[1]}"]'
@@ -120,6 +142,8 @@ def to_dsl(p, name):
                 th += [br(nreg, 1, 1), I("unlock", o)]
             elif op == "yield":
                 th.append(I("yield"))
+            elif op in ("stopx", "explore", "skipb"):
+                th.append(I(op))
             elif op == "spawnall":
                 th += [spawn(u) for u in range(2, len(p) + 1)]
             elif op == "send":
@@ -203,9 +227,10 @@ def run(ctx, spaces, bounds, sample, rng, want=("C01", "C15")):
     for sp in spaces:
         if isinstance(sp, dict):
             label, n, progs, inv = sp["label"], sp["n"], sp["progs"], sp.get("invariants", True)
+            use_results = sp.get("results", True)
         else:
             (label, n, kinds, atoms, mtxs, k, main_k) = sp
-            progs, inv = space(n, kinds, atoms, mtxs, k, main_k), True
+            progs, inv, use_results = space(n, kinds, atoms, mtxs, k, main_k), True, True
         if sample and len(progs) > sample:
             progs = rng.sample(progs, sample)
         spec = run_spec(ctx, progs, bounds, n, label, invariants=inv)
@@ -245,7 +270,7 @@ def run(ctx, spaces, bounds, sample, rng, want=("C01", "C15")):
             if len(ref) >= 2:
                 nontriv += 1
             ub = real.get(None)
-            if "C01" in want and ub is not None:
+            if "C01" in want and ub is not None and use_results:
                 if "deadlock" in ref:
                     if "deadlock" not in ub:
                         ctx.violation("missed-report", d, "deadlock", {"reference": "Dpor.tla RefOutcomes"})
@@ -278,7 +303,7 @@ def run(ctx, spaces, bounds, sample, rng, want=("C01", "C15")):
                 pres = {key_of(o["regs"], drops) if o["end"] == "ok" else "deadlock" for o in pr["res"]}
                 psch = {tuple(s) for s in pr["scheds"]} - ({tuple(pr["deadsched"])} if pr["deadsched"] else set())
                 rsch = sched_seqs(r)              # the deadlocked iteration has no end event
-                if not (pres <= real[b]) or (r["end"] in ("ok", "deadlock") and len(r.get("hook_events", [])) < 2900 and psch != rsch):
+                if (use_results and not (pres <= real[b])) or (r["end"] in ("ok", "deadlock") and len(r.get("hook_events", [])) < 2900 and psch != rsch):
                     drift += 1
                     if drift <= 5:
                         ctx.notes.append(f"dpor-spec-drift {dsl.pretty(d)} bound={b}: results spec={len(pres)} loom={len(real[b])}; "
